@@ -37,6 +37,13 @@ type CfgEz struct {
 	Hi        int                 `dials:"ez_hi"`
 	Forbidden bool                `dials:"ez_forbidden"`
 	Set       map[string]struct{} `dials:"ez_set"` // written as a list in the file (ez adds the set-to-slice wrapper)
+	EzEmb
+}
+
+// EzEmb is embedded in CfgEz: with Params.FlattenAnonymousFields a YAML file
+// sets its leaf at the top level, without it under the key "ezemb".
+type EzEmb struct {
+	Emb int `dials:"ez_emb"`
 }
 
 func (c *CfgEz) ConfigPath() (string, bool) { return c.Path, c.Path != "" }
@@ -86,6 +93,8 @@ type EzSpec struct {
 	Race      bool     `json:"race"`               // the writer starts while the entry point is still running
 	CmdLine   string   `json:"cmd_line,omitempty"` // "": a flag source of the harness's own; "default": Params.FlagSource left nil (the process's command line); "prereg": likewise, and the application has registered one of the flags itself beforehand
 	Linked    bool     `json:"linked,omitempty"`   // the config path is a symlink to a file with another name and extension; new versions are published by re-pointing it
+	Flatten   bool     `json:"flatten,omitempty"`  // Params.FlattenAnonymousFields
+	EmbLeaf   bool     `json:"emb_leaf,omitempty"` // YAML files may set the embedded struct's leaf
 	Writes    []EzPart `json:"writes,omitempty"`
 	WriteHow  []string `json:"write_how,omitempty"` // rename | rewrite | delete-create
 }
@@ -138,7 +147,16 @@ func genEz(seed uint64, faulty bool) *Scenario {
 	case 1:
 		e.CmdLine = "prereg"
 	}
+	e.EmbLeaf = e.Format == "yaml" && !e.Kebab && g.pct(50)
+	e.Flatten = e.EmbLeaf && g.pct(60)
 	fileExtras := func(p *EzPart) {
+		if e.EmbLeaf && g.pct(60) {
+			if e.Flatten {
+				p.Leaves["ez_emb"] = strconv.Itoa(int(g.id())*10 + 9)
+			} else {
+				p.Leaves["ezemb.ez_emb"] = strconv.Itoa(int(g.id())*10 + 9)
+			}
+		}
 		if v, ok := p.Leaves["ez_b"]; ok && g.pct(40) {
 			delete(p.Leaves, "ez_b")
 			p.Leaves["ez_b_old"] = v // the alias
@@ -154,6 +172,9 @@ func genEz(seed uint64, faulty bool) *Scenario {
 	fileExtras(&e.Decoy)
 	if g.pct(40) {
 		e.Defaults.Leaves["ez_set"] = "d1|d2"
+	}
+	if e.EmbLeaf && g.pct(50) {
+		e.Defaults.Leaves["ez_emb"] = "77"
 	}
 	// validity
 	switch {
@@ -267,6 +288,10 @@ func (p *EzPart) renderRaw(format string) []byte {
 	default: // yaml
 		fmt.Fprintf(&b, "ez_stamp: %d\n", p.ID)
 		for _, k := range keys {
+			if outer, inner, nested := strings.Cut(k, "."); nested {
+				fmt.Fprintf(&b, "%s:\n  %s: %s\n", outer, inner, q(k, p.Leaves[k]))
+				continue
+			}
 			fmt.Fprintf(&b, "%s: %s\n", k, q(k, p.Leaves[k]))
 		}
 	}
@@ -330,6 +355,8 @@ func applyLeaves(c *CfgEz, p *EzPart) {
 					c.Set[x] = struct{}{}
 				}
 			}
+		case "ez_emb", "ezemb.ez_emb":
+			c.Emb = n
 		case "ez_c":
 			c.C = n
 		case "ez_name":
@@ -467,6 +494,7 @@ func runEz(sc *Scenario, res *Result, keepLog bool) {
 			r.cbs = append(r.cbs, &ezCB{kind: "err", enter: s.Step(), old: o, new: n, err: err})
 		},
 	}
+	params.FlattenAnonymousFields = e.Flatten
 	if e.Kebab {
 		params.DialsTagNameDecoder = caseconversion.DecodeLowerSnakeCase
 		params.FileFieldNameEncoder = caseconversion.EncodeKebabCase
